@@ -85,6 +85,19 @@ AsCoded(e, i) ==
       [] e.e = "RDiv" ->
            MatchesAsCodedRound(AsCodedRoundDiv(i.tag, TV(AsIntT(i.lt), J(e.l)), TV(AsIntT(i.rt), J(e.r))), e.out, J(e.res))
       [] e.e = "ElBin" -> AsCodedElBin(e, i)
+      [] e.e = "ScConv" ->
+           \* integer -> integer scaling as coded (scaled/convert_operator.h): scale<k>(from_value<Result>(from)) is computed
+           \* in the promoted SOURCE representation, then cast to the destination representation
+           LET st == i.lt  dt == i.rt IN
+           IF st.k \in {"int", "scaled"} /\ dt.k \in {"int", "scaled"} /\ (st.k = "int" \/ st.rep.k = "int")
+              /\ (dt.k = "int" \/ dt.rep.k = "int") /\ RadixOK(st, dt)
+           THEN LET k == ExpOf(st) - ExpOf(dt)  r == CommonRadix(st, dt)
+                    sr == AsIntT(InnerT(st))  dr == AsIntT(InnerT(dt))
+                    x == TV(sr, J(e.l))
+                    pw == TV(Promote(sr), WrapT(PowSmall(r, IF k < 0 THEN -k ELSE k), Promote(sr)))
+                    v == IF k > 0 THEN CBin("mul", x, pw) ELSE IF k < 0 THEN CBin("div", x, pw) ELSE x
+                IN MatchesRConv(CConv(v, dr), e.out, J(e.res))
+           ELSE FALSE
       [] e.e = "RConv" ->
            LET st == i.lt  dt == i.rt IN
            IF st.k = "float" THEN
